@@ -10,12 +10,13 @@ import SageoptModel.Drv.Glue
 import SageoptModel.Drv.Wiring
 import SageoptModel.Drv.Relax
 import SageoptModel.Drv.Poly
+import SageoptModel.Drv.Solrec
 open Lean
 
 namespace Sageopt.Drv
 
 def allHandlers : List (String × Handler) :=
-  GF2.handlers ++ Solvers.handlers ++ Sig.handlers ++ SigL.handlers ++ SigCalc.handlers ++ Compile.handlers ++ Sage.handlers ++ Vars.handlers ++ Glue.handlers ++ Wiring.handlers ++ Relax.handlers ++ Poly.handlers
+  GF2.handlers ++ Solvers.handlers ++ Sig.handlers ++ SigL.handlers ++ SigCalc.handlers ++ Compile.handlers ++ Sage.handlers ++ Vars.handlers ++ Glue.handlers ++ Wiring.handlers ++ Relax.handlers ++ Poly.handlers ++ Solrec.handlers
 
 def dispatch (line : String) : String :=
   match Json.parse line with
